@@ -2406,6 +2406,38 @@ broadcast use {ce_core, ce_tree, ce_leaf, cpop_lemmas, pick_lemmas, cube_lemmas}
             ==> #[trigger] cube_follows(manager, tv(edge.cv()), o, old(cube)@, final(cube)@),
     decreases u32::MAX as int - ctop(edge.cv()),
 //@end
+//@fn file=crates/oxidd-rules-bdd/src/complement_edge/apply_rec.rs path=impl:BooleanFunction~for~BCDDFunction<F>/fn:pick_cube_edge hoist=inner>pick_cube_edge__inner ret=r props=C13
+//@header
+fn pick_cube_edge<M>(manager: &M, edge: &M::Edge, choice: impl FnMut(&M, &M::Edge, LevelNo) -> bool) -> (r: Option<Vec<OptBool>>)
+where M: Manager<EdgeTag = EdgeTag, Terminal = BCDDTerminal> + HasApplyCache<M, BCDDOp>, M::InnerNode: HasLevel,
+//@spec
+    requires edge_ok::<M::Edge>(), okc(edge.cv(), manager.num_levels_spec()),
+        forall|l: int| 0 <= l < manager.num_levels_spec() ==> 0 <= #[trigger] manager.level_to_var_spec(l) < manager.num_levels_spec(),
+        forall|mm: &M, ee: &M::Edge, l: LevelNo| (tv(ee.cv()) matches Tree::Inner(k, a, b) && k == l && *a != ff() && *b != ff()) ==> #[trigger] choice.requires((mm, ee, l)),
+    // nothing exactly for the false function; otherwise the vector written along one path into a non-false terminal (cube_rel), starting from all-don't-care
+    ensures (r is None) == (tv(edge.cv()) == ff()),
+        r is Some ==> r->Some_0@.len() == manager.num_levels_spec()
+            && (tv(edge.cv()) is Leaf ==> forall|i: int| 0 <= i < r->Some_0@.len() ==> #[trigger] r->Some_0@[i] == OptBool::None)
+            && (tv(edge.cv()) is Inner ==> exists|start: Seq<OptBool>| start.len() == manager.num_levels_spec()
+                    && (forall|i: int| 0 <= i < start.len() ==> #[trigger] start[i] == OptBool::None)
+                    && #[trigger] cube_rel(manager, tv(edge.cv()), start, r->Some_0@)),
+//@end
+//@fn file=crates/oxidd-rules-bdd/src/complement_edge/apply_rec.rs path=mod:mt/impl:BooleanFunction~for~BCDDFunctionMT<F>/fn:pick_cube_edge name=pick_cube_edge__mt props=C13 ret=r subst_text=BCDDFunction::<F>::::=
+//@header
+fn pick_cube_edge__mt<M>(manager: &M, edge: &M::Edge, choice: impl FnMut(&M, &M::Edge, LevelNo) -> bool) -> (r: Option<Vec<OptBool>>)
+where M: Manager<EdgeTag = EdgeTag, Terminal = BCDDTerminal> + HasApplyCache<M, BCDDOp>, M::InnerNode: HasLevel,
+//@spec
+    requires edge_ok::<M::Edge>(), okc(edge.cv(), manager.num_levels_spec()),
+        forall|l: int| 0 <= l < manager.num_levels_spec() ==> 0 <= #[trigger] manager.level_to_var_spec(l) < manager.num_levels_spec(),
+        forall|mm: &M, ee: &M::Edge, l: LevelNo| (tv(ee.cv()) matches Tree::Inner(k, a, b) && k == l && *a != ff() && *b != ff()) ==> #[trigger] choice.requires((mm, ee, l)),
+    // nothing exactly for the false function; otherwise the vector written along one path into a non-false terminal (cube_rel), starting from all-don't-care
+    ensures (r is None) == (tv(edge.cv()) == ff()),
+        r is Some ==> r->Some_0@.len() == manager.num_levels_spec()
+            && (tv(edge.cv()) is Leaf ==> forall|i: int| 0 <= i < r->Some_0@.len() ==> #[trigger] r->Some_0@[i] == OptBool::None)
+            && (tv(edge.cv()) is Inner ==> exists|start: Seq<OptBool>| start.len() == manager.num_levels_spec()
+                    && (forall|i: int| 0 <= i < start.len() ==> #[trigger] start[i] == OptBool::None)
+                    && #[trigger] cube_rel(manager, tv(edge.cv()), start, r->Some_0@)),
+//@end
 //@fn file=crates/oxidd-rules-bdd/src/complement_edge/apply_rec.rs path=impl:BooleanFunction~for~BCDDFunction<F>/fn:pick_cube_dd_edge hoist=inner>pick_cube_dd_edge__inner props=C13
 //@header
 fn pick_cube_dd_edge<M>(manager: &M, edge: &M::Edge, choice: impl FnMut(&M, &M::Edge, LevelNo) -> bool) -> (res: AllocResult<M::Edge>)
